@@ -273,7 +273,13 @@ def random_install(rng, gen, n_acs=None, n_zones=None):
         for z in zones:
             zones[z]["name"] = stem + str(z)
     extra = {}
-    if gen == 4 and all("start" in a for a in acs) and rng.random() < 0.5:
+    free = [z for z in range(16) if z not in zones]
+    if free and rng.random() < 0.2:
+        # a group / zone that has a name on the console but belongs to no air-conditioner (a spare damper output that was named once)
+        for z in rng.sample(free, min(len(free), rng.choice([1, 2]))):
+            zones[z] = dict(name=rng.choice(ZONE_NAMES), sensor=False, turbo=False, ctrl=0, power=0, damper=0, setpoint=22)
+        extra["unowned"] = True
+    if gen == 4 and all("start" in a for a in acs) and rng.random() < 0.5 and "unowned" not in extra:
         extra["fmt"] = "old"          # every AC's groups are one contiguous block: an old console can describe this installation
     return dict(acs=acs, zones=zones, version=rng.choice(["1.2.3", "1.0.5", "9.9"]), update=rng.choice([0, 0, 1]), **extra)
 
